@@ -1,7 +1,10 @@
 // SPDX-FileCopyrightText: 2023 Joshua Goins <josh@redstrate.com>
 // SPDX-License-Identifier: GPL-3.0-or-later
 
+#[cfg(not(feature = "verif_sim"))]
 use std::fs;
+#[cfg(feature = "verif_sim")]
+use crate::vfs as fs;
 use std::path::Path;
 
 use binrw::binrw;
